@@ -1615,7 +1615,15 @@ func (m *StateMachine) handleFinalization(
 
 	rlc.FinalizeRespCh = nil
 
-	if resp.Height != rlc.H || resp.Round != rlc.R {
+	// While catching up we asked the driver to finalize an already committed header,
+	// and the request named the round that header was committed in,
+	// which need not be the round we happened to enter.
+	finRound := rlc.R
+	if rlc.CatchingUp {
+		finRound = resp.Round
+	}
+
+	if resp.Height != rlc.H || resp.Round != finRound {
 		panic(fmt.Errorf(
 			"BUG: driver sent height/round %d/%d differing from current (%d/%d)",
 			resp.Height, resp.Round, rlc.H, rlc.R,
@@ -1624,7 +1632,7 @@ func (m *StateMachine) handleFinalization(
 
 	if err := m.fStore.SaveFinalization(
 		ctx,
-		rlc.H, rlc.R,
+		rlc.H, finRound,
 		string(resp.BlockHash),
 		rlc.FinalizedValSet,
 		string(resp.AppStateHash),
@@ -1931,6 +1939,11 @@ func (m *StateMachine) advance(
 	} else {
 		// The state machine is still catching up with the mirror.
 		rlc.MarkCatchingUp()
+
+		// There is no commit wait when catching up (MarkCatchingUp marks it elapsed),
+		// so the only thing left in this round is the finalization,
+		// after which handleFinalization advances the height.
+		rlc.S = tsi.StepAwaitingFinalization
 
 		// In replay, we just directly make a finalize block request.
 		finReq := tmdriver.FinalizeBlockRequest{
